@@ -8,6 +8,8 @@ Local Open Scope N_scope.
 
 Definition nofault {A} (r : res A) : Prop := forall f, r <> Fault f.
 Definition rem (d : decoder) : nat := length (d_rest d).
+(** bytes consumed + bytes left: constant through every operation (the cursor stays inside the buffer) *)
+Definition tot (d : decoder) : N := d_pos d + N.of_nat (rem d).
 
 Lemma nofault_ok {A} (a : A) : nofault (Ok a). Proof. intros f H; discriminate. Qed.
 Lemma nofault_err {A} c : nofault (@Err A c). Proof. intros f H; discriminate. Qed.
@@ -48,10 +50,10 @@ Lemma read_byte_raw_nf d : nofault (read_byte_raw d).
 Proof. destruct (read_byte_raw_cases d) as [[_ H]|(b & tl & _ & H)]; rewrite H; auto with nf. Qed.
 
 Lemma read_byte_raw_rem d b d' : read_byte_raw d = Ok (b, d') ->
-  S (rem d') = rem d /\ d_lfid d' = d_lfid d /\ d_boolp d' = d_boolp d /\ d_boolv d' = d_boolv d.
+  S (rem d') = rem d /\ d_lfid d' = d_lfid d /\ d_boolp d' = d_boolp d /\ d_boolv d' = d_boolv d /\ tot d' = tot d.
 Proof.
   destruct (read_byte_raw_cases d) as [[_ H]|(b0 & tl & E & H)]; rewrite H; intros X; inversion X; subst.
-  unfold rem. rewrite E. simpl. auto.
+  unfold tot, rem. rewrite E. simpl. repeat split; auto. lia.
 Qed.
 
 Lemma reader_skip_nf n d : nofault (reader_skip n d).
@@ -61,10 +63,10 @@ Proof.
 Qed.
 
 Lemma reader_skip_rem n d d' : reader_skip n d = Ok d' ->
-  (rem d' <= rem d)%nat /\ d_lfid d' = d_lfid d /\ d_boolp d' = d_boolp d.
+  (rem d' <= rem d)%nat /\ d_lfid d' = d_lfid d /\ d_boolp d' = d_boolp d /\ tot d' = tot d.
 Proof.
   unfold reader_skip. destruct (has_bytes d n) eqn:E.
-  - apply len_nat in E. rewrite take_bytes_ok by exact E. intros X; inversion X; subst. unfold rem. simpl.
+  - apply len_nat in E. rewrite take_bytes_ok by exact E. intros X; inversion X; subst. unfold tot, rem. simpl.
     rewrite skipn_length. repeat split; lia.
   - intros X; inversion X; subst. auto.
 Qed.
@@ -78,22 +80,22 @@ Proof.
 Qed.
 
 Lemma read_varint_loop_rem : forall k s r d v d', read_varint_loop k s r d = Ok (v, d') ->
-  (S (rem d') <= rem d)%nat /\ d_lfid d' = d_lfid d /\ d_boolp d' = d_boolp d /\ d_boolv d' = d_boolv d.
+  (S (rem d') <= rem d)%nat /\ d_lfid d' = d_lfid d /\ d_boolp d' = d_boolp d /\ d_boolv d' = d_boolv d /\ tot d' = tot d.
 Proof.
   induction k as [|k IH]; intros s r d v d'; cbn [read_varint_loop]; [discriminate|].
   destruct (has_bytes d 1); [|discriminate].
   destruct (read_byte_raw d) as [[b d1]| |] eqn:RB; try discriminate.
-  apply read_byte_raw_rem in RB. destruct RB as (R1 & R2 & R3 & R4).
+  apply read_byte_raw_rem in RB. destruct RB as (R1 & R2 & R3 & R4 & R5).
   destruct (N.land b 128 =? 0).
   - intros X; inversion X; subst. repeat split; try congruence; lia.
-  - intros X. apply IH in X. destruct X as (X1 & X2 & X3 & X4). repeat split; try congruence; lia.
+  - intros X. apply IH in X. destruct X as (X1 & X2 & X3 & X4 & X5). repeat split; try congruence; lia.
 Qed.
 
 Lemma read_varint_nf d : nofault (read_varint d).
 Proof. apply read_varint_loop_nf. Qed.
 
 Lemma read_varint_rem d v d' : read_varint d = Ok (v, d') ->
-  (S (rem d') <= rem d)%nat /\ d_lfid d' = d_lfid d /\ d_boolp d' = d_boolp d /\ d_boolv d' = d_boolv d.
+  (S (rem d') <= rem d)%nat /\ d_lfid d' = d_lfid d /\ d_boolp d' = d_boolp d /\ d_boolv d' = d_boolv d /\ tot d' = tot d.
 Proof. apply read_varint_loop_rem. Qed.
 
 Lemma read_int_nf bits d : nofault (read_int bits d).
@@ -103,7 +105,7 @@ Proof.
 Qed.
 
 Lemma read_int_rem bits d v d' : read_int bits d = Ok (v, d') ->
-  (S (rem d') <= rem d)%nat /\ d_lfid d' = d_lfid d /\ d_boolp d' = d_boolp d /\ d_boolv d' = d_boolv d.
+  (S (rem d') <= rem d)%nat /\ d_lfid d' = d_lfid d /\ d_boolp d' = d_boolp d /\ d_boolv d' = d_boolv d /\ tot d' = tot d.
 Proof.
   unfold read_int, read_zigzag. destruct (read_varint d) as [[n d1]| |] eqn:E; try discriminate.
   intros X; inversion X; subst. eapply read_varint_rem; eauto.
@@ -120,14 +122,14 @@ Proof.
 Qed.
 
 Lemma read_binary_rem d v d' : read_binary d = Ok (v, d') ->
-  (S (rem d') <= rem d)%nat /\ d_lfid d' = d_lfid d /\ d_boolp d' = d_boolp d.
+  (S (rem d') <= rem d)%nat /\ d_lfid d' = d_lfid d /\ d_boolp d' = d_boolp d /\ tot d' = tot d.
 Proof.
   unfold read_binary. destruct (read_varint d) as [[n d1]| |] eqn:RV; try discriminate.
-  apply read_varint_rem in RV. destruct RV as (R1 & R2 & R3 & R4).
+  apply read_varint_rem in RV. destruct RV as (R1 & R2 & R3 & R4 & R5).
   destruct (i32 (Z.of_N n) <? 0)%Z eqn:Neg; [discriminate|].
   destruct (has_bytes d1 (Z.to_N (i32 (Z.of_N n)))) eqn:E; [|discriminate].
   apply len_nat in E. apply Z.ltb_ge in Neg. rewrite take_bytes_ok by lia.
-  intros X; inversion X; subst. unfold rem in *. simpl. rewrite skipn_length. repeat split; try congruence; lia.
+  intros X; inversion X; subst. unfold tot, rem in *. simpl. rewrite skipn_length. repeat split; try congruence; lia.
 Qed.
 
 Lemma read_struct_begin_nf d : nofault (read_struct_begin d).
@@ -144,19 +146,19 @@ Proof.
 Qed.
 
 Lemma read_field_begin_rem d h d' : read_field_begin d = Ok (h, d') ->
-  (S (rem d') <= rem d)%nat /\ length (d_lfid d') = length (d_lfid d).
+  (S (rem d') <= rem d)%nat /\ length (d_lfid d') = length (d_lfid d) /\ tot d' = tot d.
 Proof.
   unfold read_field_begin. destruct (read_byte_raw d) as [[b d1]| |] eqn:RB; try discriminate.
-  apply read_byte_raw_rem in RB. destruct RB as (R1 & R2 & R3 & R4).
-  destruct (b =? 0). { intros X; inversion X; subst. split; [lia|congruence]. }
+  apply read_byte_raw_rem in RB. destruct RB as (R1 & R2 & R3 & R4 & R5).
+  destruct (b =? 0). { intros X; inversion X; subst. repeat split; [lia|congruence|congruence]. }
   assert (Hset : forall id l, length (set_top id l) = length l) by (intros id [|x t]; reflexivity).
   destruct (N.land (N.shiftr b 4) 15 =? 0).
   - unfold read_i16. destruct (read_int 16 d1) as [[fid d2]| |] eqn:RI; try discriminate.
-    apply read_int_rem in RI. destruct RI as (I1 & I2 & I3 & I4).
+    apply read_int_rem in RI. destruct RI as (I1 & I2 & I3 & I4 & I5).
     intros X; inversion X; subst.
-    destruct (N.land b 15 =? 1); [|destruct (N.land b 15 =? 2)]; unfold rem in *; simpl; rewrite Hset; split; try lia; congruence.
+    destruct (N.land b 15 =? 1); [|destruct (N.land b 15 =? 2)]; unfold tot, rem in *; simpl; rewrite Hset; repeat split; try lia; congruence.
   - intros X; inversion X; subst.
-    destruct (N.land b 15 =? 1); [|destruct (N.land b 15 =? 2)]; unfold rem in *; simpl; rewrite Hset; split; try lia; congruence.
+    destruct (N.land b 15 =? 1); [|destruct (N.land b 15 =? 2)]; unfold tot, rem in *; simpl; rewrite Hset; repeat split; try lia; congruence.
 Qed.
 
 Lemma read_list_begin_nf d : nofault (read_list_begin d).
@@ -172,10 +174,10 @@ Proof.
 Qed.
 
 Lemma read_list_begin_rem d et c d' : read_list_begin d = Ok (et, c, d') ->
-  (S (rem d') <= rem d)%nat /\ d_lfid d' = d_lfid d /\ d_boolp d' = d_boolp d /\ (0 <= c)%Z /\ (Z.to_nat c <= rem d')%nat.
+  (S (rem d') <= rem d)%nat /\ d_lfid d' = d_lfid d /\ d_boolp d' = d_boolp d /\ (0 <= c)%Z /\ (Z.to_nat c <= rem d')%nat /\ tot d' = tot d.
 Proof.
   unfold read_list_begin. destruct (read_byte_raw d) as [[b d1]| |] eqn:RB; try discriminate.
-  apply read_byte_raw_rem in RB. destruct RB as (R1 & R2 & R3 & R4).
+  apply read_byte_raw_rem in RB. destruct RB as (R1 & R2 & R3 & R4 & R5).
   assert (G : forall (count : Z) (d2 : decoder),
     (if (count <? 0)%Z then Err ST_DECODE else if negb (has_bytes d2 (Z.to_N count)) then Err ST_DECODE
      else Ok (N.land b 15, count, d2)) = Ok (et, c, d') -> d2 = d' /\ (0 <= c)%Z /\ (Z.to_nat c <= rem d')%nat).
@@ -183,7 +185,7 @@ Proof.
     intros X; inversion X; subst. apply Z.ltb_ge in Neg. apply len_nat in E. unfold rem in *. repeat split; lia. }
   destruct (N.land (N.shiftr b 4) 15 =? 15).
   - destruct (read_varint d1) as [[n d2]| |] eqn:RV; try discriminate.
-    apply read_varint_rem in RV. destruct RV as (V1 & V2 & V3 & V4).
+    apply read_varint_rem in RV. destruct RV as (V1 & V2 & V3 & V4 & V5).
     intros X. apply G in X. destruct X as (-> & X2 & X3). repeat split; try congruence; lia.
   - intros X. apply G in X. destruct X as (-> & X2 & X3). repeat split; try congruence; lia.
 Qed.
@@ -199,34 +201,39 @@ Proof.
 Qed.
 
 Lemma read_map_begin_rem d kt vt c d' : read_map_begin d = Ok (kt, vt, c, d') ->
-  (S (rem d') <= rem d)%nat /\ d_lfid d' = d_lfid d /\ d_boolp d' = d_boolp d /\ (Z.to_nat c <= S (rem d'))%nat.
+  (S (rem d') <= rem d)%nat /\ d_lfid d' = d_lfid d /\ d_boolp d' = d_boolp d /\ (Z.to_nat c <= S (rem d'))%nat /\ tot d' = tot d.
 Proof.
   unfold read_map_begin. destruct (read_varint d) as [[n d1]| |] eqn:RV; try discriminate.
-  apply read_varint_rem in RV. destruct RV as (V1 & V2 & V3 & V4).
+  apply read_varint_rem in RV. destruct RV as (V1 & V2 & V3 & V4 & V5).
   destruct (i32 (Z.of_N n) <? 0)%Z eqn:Neg; [discriminate|]. apply Z.ltb_ge in Neg.
   destruct (i32 (Z.of_N n) =? 0)%Z eqn:Zr.
   { intros X; inversion X; subst. repeat split; try congruence; simpl; lia. }
   destruct (has_bytes d1 (Z.to_N (i32 (Z.of_N n)))) eqn:E; [|discriminate]. apply len_nat in E.
   destruct (read_byte_raw d1) as [[b d2]| |] eqn:RB; try discriminate.
-  apply read_byte_raw_rem in RB. destruct RB as (R1 & R2 & R3 & R4).
+  apply read_byte_raw_rem in RB. destruct RB as (R1 & R2 & R3 & R4 & R5).
   intros X; inversion X; subst. unfold rem in *. repeat split; try congruence; lia.
 Qed.
 
 (* ------------------------------------------------------------------------------------------ *)
 (** * The loops of the skip function *)
 
-(** what is needed of the recursive call *)
+(** what is needed of the recursive call: never faults, moves forward, stays inside the buffer *)
+Definition fwd (d d' : decoder) : Prop :=
+  (rem d' <= rem d)%nat /\ length (d_lfid d') = length (d_lfid d) /\ tot d' = tot d.
+Lemma fwd_refl d : fwd d d. Proof. repeat split; auto. Qed.
+Lemma fwd_trans a b c : fwd a b -> fwd b c -> fwd a c.
+Proof. intros (A1 & A2 & A3) (B1 & B2 & B3). repeat split; [lia|congruence|congruence]. Qed.
+
 Definition good_skip (sk : decoder -> res decoder) : Prop :=
-  forall d, nofault (sk d) /\
-            forall d', sk d = Ok d' -> (rem d' <= rem d)%nat /\ length (d_lfid d') = length (d_lfid d).
+  forall d, nofault (sk d) /\ forall d', sk d = Ok d' -> fwd d d'.
 
 Lemma skip_elems_good sk : good_skip sk -> forall n, good_skip (skip_elems sk n).
 Proof.
   intros G. induction n as [|n IH]; intros d; cbn [skip_elems].
-  - split; auto with nf. intros d' X; inversion X; subst. auto.
+  - split; auto with nf. intros d' X; inversion X; subst. apply fwd_refl.
   - destruct (G d) as [Gn Gr]. destruct (sk d) as [d1| |] eqn:E.
-    + destruct (Gr d1 eq_refl) as [R1 R2]. destruct (IH d1) as [In Ir]. split; [exact In|].
-      intros d' X. destruct (Ir d' X). split; [lia|congruence].
+    + pose proof (Gr d1 eq_refl) as R. destruct (IH d1) as [In Ir]. split; [exact In|].
+      intros d' X. eapply fwd_trans; eauto.
     + split; [auto with nf | discriminate].
     + exfalso. eapply Gn; reflexivity.
 Qed.
@@ -234,12 +241,12 @@ Qed.
 Lemma skip_pairs_good skk skv : good_skip skk -> good_skip skv -> forall n, good_skip (skip_pairs skk skv n).
 Proof.
   intros Gk Gv. induction n as [|n IH]; intros d; cbn [skip_pairs].
-  - split; auto with nf. intros d' X; inversion X; subst. auto.
+  - split; auto with nf. intros d' X; inversion X; subst. apply fwd_refl.
   - destruct (Gk d) as [Gn Gr]. destruct (skk d) as [d1| |] eqn:E.
-    + destruct (Gr d1 eq_refl) as [R1 R2]. destruct (Gv d1) as [Hn Hr].
+    + pose proof (Gr d1 eq_refl) as R. destruct (Gv d1) as [Hn Hr].
       destruct (skv d1) as [d2| |] eqn:E2.
-      * destruct (Hr d2 eq_refl) as [S1 S2]. destruct (IH d2) as [In Ir]. split; [exact In|].
-        intros d' X. destruct (Ir d' X). split; [lia|congruence].
+      * pose proof (Hr d2 eq_refl) as R2. destruct (IH d2) as [In Ir]. split; [exact In|].
+        intros d' X. eapply fwd_trans; [exact R|]. eapply fwd_trans; eauto.
       * split; [auto with nf | discriminate].
       * exfalso. eapply Hn; reflexivity.
     + split; [auto with nf | discriminate].
@@ -248,20 +255,19 @@ Qed.
 
 Lemma skip_fields_good sk : (forall ft, good_skip (sk ft)) ->
   forall k d, (rem d < length k)%nat ->
-    nofault (skip_fields sk k d) /\
-    forall d', skip_fields sk k d = Ok d' -> (rem d' <= rem d)%nat /\ length (d_lfid d') = length (d_lfid d).
+    nofault (skip_fields sk k d) /\ forall d', skip_fields sk k d = Ok d' -> fwd d d'.
 Proof.
   intros G. induction k as [|k0 k IH]; intros d Hk; [simpl in Hk; lia|]. simpl in Hk. cbn [skip_fields].
   pose proof (read_field_begin_nf d) as Fn.
   destruct (read_field_begin d) as [[[[ft fid]|] d1]| |] eqn:RF.
-  - apply read_field_begin_rem in RF. destruct RF as [R1 R2].
+  - apply read_field_begin_rem in RF. destruct RF as (R1 & R2 & R3).
     destruct (G ft d1) as [Gn Gr]. destruct (sk ft d1) as [d2| |] eqn:E.
-    + destruct (Gr d2 eq_refl) as [S1 S2]. destruct (IH d2) as [In Ir]; [lia|]. split; [exact In|].
-      intros d' X. destruct (Ir d' X). split; [lia|congruence].
+    + destruct (Gr d2 eq_refl) as (S1 & S2 & S3). destruct (IH d2) as [In Ir]; [lia|]. split; [exact In|].
+      intros d' X. destruct (Ir d' X) as (T1 & T2 & T3). repeat split; [lia|congruence|congruence].
     + split; [auto with nf | discriminate].
     + exfalso. eapply Gn; reflexivity.
-  - apply read_field_begin_rem in RF. destruct RF as [R1 R2]. split; auto with nf.
-    intros d' X; inversion X; subst. split; [lia|congruence].
+  - apply read_field_begin_rem in RF. destruct RF as (R1 & R2 & R3). split; auto with nf.
+    intros d' X; inversion X; subst. repeat split; [lia|congruence|congruence].
   - split; [auto with nf | discriminate].
   - exfalso. eapply Fn; reflexivity.
 Qed.
@@ -284,22 +290,22 @@ Proof.
     assert (Hbool : nofault (if el then match read_byte_raw d with Ok (_, d1) => Ok d1 | Err c => Err c | Fault f => Fault f end
                              else Ok (with_bool d false (d_boolv d))) /\
                     forall d', (if el then match read_byte_raw d with Ok (_, d1) => Ok d1 | Err c => Err c | Fault f => Fault f end
-                                else Ok (with_bool d false (d_boolv d))) = Ok d' ->
-                               (rem d' <= rem d)%nat /\ length (d_lfid d') = length (d_lfid d)).
+                                else Ok (with_bool d false (d_boolv d))) = Ok d' -> fwd d d').
     { destruct el.
       - pose proof (read_byte_raw_nf d) as Hn. destruct (read_byte_raw d) as [[b d1]| |] eqn:RB.
-        + split; auto with nf. intros d' X; inversion X; subst. apply read_byte_raw_rem in RB. destruct RB as (R1 & R2 & _). split; [lia|congruence].
+        + split; auto with nf. intros d' X; inversion X; subst. apply read_byte_raw_rem in RB.
+          destruct RB as (R1 & R2 & _ & _ & R5). repeat split; [lia|congruence|congruence].
         + split; [auto with nf | discriminate].
         + exfalso. eapply Hn; reflexivity.
-      - split; auto with nf. intros d' X; inversion X; subst. split; reflexivity. }
-    assert (Hskip : forall n, nofault (reader_skip n d) /\
-                    forall d', reader_skip n d = Ok d' -> (rem d' <= rem d)%nat /\ length (d_lfid d') = length (d_lfid d)).
-    { intros n. split; [apply reader_skip_nf|]. intros d' X. apply reader_skip_rem in X. destruct X as (X1 & X2 & _). split; [lia|congruence]. }
+      - split; auto with nf. intros d' X; inversion X; subst. unfold fwd, tot, rem; simpl; repeat split; lia. }
+    assert (Hskip : forall n, nofault (reader_skip n d) /\ forall d', reader_skip n d = Ok d' -> fwd d d').
+    { intros n. split; [apply reader_skip_nf|]. intros d' X. apply reader_skip_rem in X.
+      destruct X as (X1 & X2 & _ & X4). repeat split; [lia|congruence|congruence]. }
     assert (Hvar : nofault (match read_varint d with Ok (_, d1) => Ok d1 | Err c => Err c | Fault f => Fault f end) /\
-                   forall d', match read_varint d with Ok (_, d1) => Ok d1 | Err c => Err c | Fault f => Fault f end = Ok d' ->
-                              (rem d' <= rem d)%nat /\ length (d_lfid d') = length (d_lfid d)).
+                   forall d', match read_varint d with Ok (_, d1) => Ok d1 | Err c => Err c | Fault f => Fault f end = Ok d' -> fwd d d').
     { pose proof (read_varint_nf d) as Hn. destruct (read_varint d) as [[v d1]| |] eqn:RV.
-      - split; auto with nf. intros d' X; inversion X; subst. apply read_varint_rem in RV. destruct RV as (R1 & R2 & _). split; [lia|congruence].
+      - split; auto with nf. intros d' X; inversion X; subst. apply read_varint_rem in RV.
+        destruct RV as (R1 & R2 & _ & _ & R5). repeat split; [lia|congruence|congruence].
       - split; [auto with nf | discriminate].
       - exfalso. eapply Hn; reflexivity. }
     assert (Hlist : nofault (match read_list_begin d with
@@ -307,12 +313,11 @@ Proof.
                              | Err c => Err c | Fault f => Fault f end) /\
                     forall d', match read_list_begin d with
                                | Ok (et, count, d1) => skip_elems (skip_value fuel et (depth + 1) true) (Z.to_nat count) d1
-                               | Err c => Err c | Fault f => Fault f end = Ok d' ->
-                               (rem d' <= rem d)%nat /\ length (d_lfid d') = length (d_lfid d)).
+                               | Err c => Err c | Fault f => Fault f end = Ok d' -> fwd d d').
     { pose proof (read_list_begin_nf d) as Hn. destruct (read_list_begin d) as [[[et c] d1]| |] eqn:RL.
-      - apply read_list_begin_rem in RL. destruct RL as (R1 & R2 & _).
+      - apply read_list_begin_rem in RL. destruct RL as (R1 & R2 & _ & _ & _ & R6).
         destruct (skip_elems_good _ (Hrec et true) (Z.to_nat c) d1) as [Sn Sr]. split; [exact Sn|].
-        intros d' X. destruct (Sr d' X). split; [lia|congruence].
+        intros d' X. destruct (Sr d' X) as (T1 & T2 & T3). repeat split; [lia|congruence|congruence].
       - split; [auto with nf | discriminate].
       - exfalso. eapply Hn; reflexivity. }
     destruct ty as [|p]; [split; [auto with nf | discriminate]|].
@@ -320,9 +325,9 @@ Proof.
           try exact Hvar; try exact Hlist).
     { (* map *)
       pose proof (read_map_begin_nf d) as Hn. destruct (read_map_begin d) as [[[[kt vt] c] d1]| |] eqn:RM.
-      + apply read_map_begin_rem in RM. destruct RM as (R1 & R2 & _).
+      + apply read_map_begin_rem in RM. destruct RM as (R1 & R2 & _ & _ & R5).
         destruct (skip_pairs_good _ _ (Hrec kt true) (Hrec vt true) (Z.to_nat c) d1) as [Sn Sr]. split; [exact Sn|].
-        intros d' X. destruct (Sr d' X). split; [lia|congruence].
+        intros d' X. destruct (Sr d' X) as (T1 & T2 & T3). repeat split; [lia|congruence|congruence].
       + split; [auto with nf | discriminate].
       + exfalso. eapply Hn; reflexivity. }
     { (* struct *)
@@ -332,13 +337,14 @@ Proof.
       destruct (skip_fields_good (fun ft => skip_value fuel ft (depth + 1) false) (fun ft => Hrec ft false)
                   (0 :: d_rest d1) d1) as [Sn Sr]; [unfold rem; simpl; lia|].
       destruct (skip_fields _ _ d1) as [d2| |] eqn:SF.
-      + split; [auto with nf|]. intros d' X; inversion X; subst. destruct (Sr d2 eq_refl) as [S1 S2].
-        unfold rem in *. simpl in *. split; [lia|]. destruct (d_lfid d2); simpl in *; lia.
+      + split; [auto with nf|]. intros d' X; inversion X; subst. destruct (Sr d2 eq_refl) as (S1 & S2 & S3).
+        unfold fwd, tot, rem in *. simpl in *. repeat split; [lia| |lia]. destruct (d_lfid d2); simpl in *; lia.
       + split; [auto with nf | discriminate].
       + exfalso. eapply Sn; reflexivity. }
     { (* binary *)
       pose proof (read_binary_nf d) as Hn. destruct (read_binary d) as [[v d1]| |] eqn:RB.
-      + split; [auto with nf|]. intros d' X; inversion X; subst. apply read_binary_rem in RB. destruct RB as (R1 & R2 & _). split; [lia|congruence].
+      + split; [auto with nf|]. intros d' X; inversion X; subst. apply read_binary_rem in RB.
+        destruct RB as (R1 & R2 & _ & R4). repeat split; [lia|congruence|congruence].
       + split; [auto with nf | discriminate].
       + exfalso. eapply Hn; reflexivity. }
 Qed.
@@ -354,12 +360,14 @@ Qed.
 Theorem skip_depth_bounded_all : forall ty d, thrift_skip ty d <> Fault DepthExceeded.
 Proof. intros ty d. apply skip_never_faults_all. Qed.
 
-Theorem skip_forward : forall ty d d', thrift_skip ty d = Ok d' ->
-  (rem d' <= rem d)%nat /\ length (d_lfid d') = length (d_lfid d).
+Theorem skip_forward : forall ty d d', thrift_skip ty d = Ok d' -> fwd d d'.
 Proof.
   intros ty d d'. unfold thrift_skip, skip_fuel.
   apply (skip_value_good (N.to_nat MAX_NESTING) ty 0 false). rewrite N2Nat.id. lia.
 Qed.
+
+Lemma thrift_skip_good ty : good_skip (thrift_skip ty).
+Proof. intros d. split; [apply skip_never_faults_all | apply skip_forward]. Qed.
 
 (** non-trivial instances: a list of lists is skipped, 32 nested lists are refused with an error *)
 Example skip_example_ok :
